@@ -21,7 +21,11 @@ RULE = ('class DAGs: every DAG over <=4 classes with every ordered tuple of '
         'remove_processor, compared with the issubclass-defined expectation '
         '(each match once, exact type first, exactly one object detached, '
         'nothing else changed). Non-trivial = multiple inheritance with a '
-        'populated class reachable along >=2 paths from a queried type.')
+        'populated class reachable along >=2 paths from a queried type.'
+        ' Rounds 9-13 added: components given again through create_entity'
+        ' with an id in use; handler components that ask every type query'
+        ' from inside on_add/on_remove; removals with dispatching disabled;'
+        ' exact-type priority for a bare object().')
 ANCHORS = [
     'desper/logic/world.py::World._get',
     'desper/logic/world.py::World.get_component',
